@@ -1042,10 +1042,20 @@ pub fn gen_project(r: &mut Rng, corpus: &Corpus) -> Project {
             files.push((format!("sub/c%C3%28{}.prql", xr.below(10)), "let z1 = 3\n".to_string()));
         }
     }
-    Project {
-        files,
-        main_path: Vec::new(),
+    // `pl_to_rq_tree(pl, main_path, ..)`: the main relation need not be the root module's
+    // pipeline - a let-table of a module, a module file that holds a pipeline, or a path
+    // that does not exist (the error lists what was tried)
+    let mut main_path: Vec<String> = Vec::new();
+    match xr.below(10) {
+        0 | 1 => main_path = refs[xr.below(refs.len())].split('.').map(str::to_string).collect(),
+        2 => {
+            files.push(("reports/weekly.prql".to_string(), format!("from {}\ntake {}\n", refs[0], 2 + xr.below(7))));
+            main_path = vec!["reports".to_string(), "weekly".to_string()];
+        }
+        3 => main_path = vec!["nope".to_string(), format!("missing{}", xr.below(5))],
+        _ => {}
     }
+    Project { files, main_path }
 }
 
 // ------------------------------------------------------------------ ops
